@@ -75,6 +75,11 @@ def constructs(c, truthy, bmark, insp):
     yield "arg_not", "r := [7].has?(!(%s))\nr" % c, L(B), "false"
     yield "B_direct", "r := %s.B\nr" % c, None, None
     yield "chain_guard", "[1, 2]@{|x| t(x) if %s}" % c, L(B + ([1] if truthy else []) + B + ([2] if truthy else [])), "[1, 2]" if truthy else "[]"
+    # mixed chains: `a && b || c` is `(a && b) || c`, and an inner link that short-cuts decides only its own link
+    # (the value it keeps is asked again by the outer operator)
+    yield "and_or", "r := %s && t(1) || t(2)\nr" % c, L(B + ([1] if truthy else B + [2])), "1" if truthy else "2"
+    yield "or_and", "r := (%s || t(0)) && t(2)\nr" % c, L(B + (B + [2] if truthy else [0])), "2" if truthy else "0"
+    yield "and_or_and_or", "r := %s && t(1) || %s && t(3) || t(4)\nr" % (c, c), L(B + ([1] if truthy else B + B + B + [4])), "1" if truthy else "4"
     yield "nested", "r := ((t(1) if %s else t(2)) if (%s || t(3)) else t(4))\nr" % (c, c), None, None
 
 
@@ -152,8 +157,8 @@ def main(chk):
     chk.cov["input_distribution"] = fam
     chk.cov["rule"] = ("condition pool of %d values (every built-in type's zero and non-zero value, children made with bear of values and "
                        "of the type objects, typed descendants made with new (also Int / Str / Arr descendants whose prototype overrides B), objects whose B prints and returns true / false / a non-boolean / "
-                       "raises) x 22 conditional constructs (if/else, if, !, !!, && and || on either side incl. a side-effecting left operand that decides, the "
-                       "compound forms ||= and &&=, the operators written directly as call arguments, guarded return/raise/defer/yield, B "
+                       "raises) x 25 conditional constructs (if/else, if, !, !!, && and || on either side incl. a side-effecting left operand that decides, the "
+                       "compound forms ||= and &&=, the operators written directly as call arguments, mixed && / || chains whose inner link short-cuts, guarded return/raise/defer/yield, B "
                        "called directly, guard inside a list chain, nested conditionals) with marker-printing operands, plus seeded random "
                        "compositions. Expected trace and value from the property's rule; all cases non-trivial, distinct by text. Children of "
                        "BaseObj itself are outside the property's domain and not generated." % len(POOL))
